@@ -124,3 +124,89 @@ func verifRandInt() int {
 }
 `)
 }
+
+func init() { generators = append(generators, genHelloShim) }
+
+// Read-only accessors: the ClientHello infos recorded by a TLS server and the
+// servers of an instance.
+func genHelloShim(repo, out string, m map[string]string) error {
+	ids := topLevel(filepath.Join(repo, "caskethttp/httpserver"))
+	if ids["tlsHandler"] && ids["tlsHelloListener"] && ids["Server"] {
+		applied["helloshim"] = true
+		if err := shim(repo, out, m, "caskethttp/httpserver/zz_verif_hello.go", `//go:build verif
+
+package httpserver
+
+import "fmt"
+
+// VerifHelloInfos returns the recorded ClientHello infos keyed by remote address.
+func VerifHelloInfos(s *Server) map[string]string {
+	out := map[string]string{}
+	h, ok := s.Server.Handler.(*tlsHandler)
+	if !ok || h.listener == nil {
+		return out
+	}
+	h.listener.helloInfosMu.RLock()
+	defer h.listener.helloInfosMu.RUnlock()
+	for k, v := range h.listener.helloInfos {
+		out[k] = fmt.Sprintf("%+v", v)
+	}
+	return out
+}
+`); err != nil {
+			return err
+		}
+	}
+	cids := topLevel(repo)
+	if cids["Instance"] && cids["ServerListener"] {
+		applied["serversshim"] = true
+		return shim(repo, out, m, "zz_verif_servers.go", `//go:build verif
+
+package casket
+
+// VerifServers returns the servers of an instance.
+func VerifServers(i *Instance) []Server {
+	var out []Server
+	for _, s := range i.servers {
+		out = append(out, s.server)
+	}
+	return out
+}
+`)
+	}
+	return nil
+}
+
+func init() { generators = append(generators, genFcgiDial) }
+
+// The FastCGI client dials its responder with a net.Dialer: route the dial
+// to the simulated network when the simulator says so.
+func genFcgiDial(repo, out string, m map[string]string) error {
+	if err := rewriteFile(repo, out, m, "fcgidial", "caskethttp/fastcgi/fcgiclient.go", []repl{{
+		old: "dialer.DialContext(ctx, network, address)", new: "verifDial(ctx, network, address, dialer)"}}); err != nil {
+		return err
+	}
+	if !applied["fcgidial"] {
+		delete(m, filepath.Join(repo, "caskethttp/fastcgi/fcgiclient.go"))
+		return nil
+	}
+	return shim(repo, out, m, "caskethttp/fastcgi/zz_verif_dial.go", `//go:build verif
+
+package fastcgi
+
+import (
+	"context"
+	"net"
+)
+
+// VerifDial, when set, replaces the dial of the FastCGI responder.
+var VerifDial func(ctx context.Context, network, address string) (net.Conn, error)
+
+func verifDial(ctx context.Context, network, address string, d net.Dialer) (net.Conn, error) {
+	if VerifDial != nil {
+		return VerifDial(ctx, network, address)
+	}
+	return d.DialContext(ctx, network, address)
+}
+`)
+}
